@@ -331,7 +331,8 @@ def agraph_runs(nruns, seed, mon):
         lo = LocalOptFitnessFunction(fit, ScipyOptimizer(fit, method="lm"))
         gen = AGraphGenerator(8, cg)
         kind = r % 4
-        ev = Evaluation(lo)
+        # every third run evaluates in two worker processes: what comes back must be the evaluated (optimised) individual
+        ev = Evaluation(lo, multiprocess=2) if r % 3 == 1 else Evaluation(lo)
         if kind == 0:
             ea = AgeFitnessEA(ev, gen, AGraphCrossover(), AGraphMutation(cg), 0.4, 0.4, 8)
         elif kind == 1:
@@ -363,7 +364,7 @@ def agraph_runs(nruns, seed, mon):
         except Exception as e:  # noqa
             out["viol"].append("AGraph run seed %d kind %d raised %r" % (s, kind, e))
         out["runs"] += 1
-        out["samples"].append(dict(seed=s, kind=kind, archipelago=(r % 3 == 0)))
+        out["samples"].append(dict(seed=s, kind=kind, archipelago=(r % 3 == 0), worker_processes=(2 if r % 3 == 1 else 0)))
         if out["viol"]:
             break
     return out
@@ -467,7 +468,8 @@ def check(rep, proof):
              "returned are observed) and the next generation's (genome, stored fitness, flag) triples compared; a class-level "
              "monitor flags every read of a missing/stale fitness inside selection, diagnostics, best-individual and hall-of-fame "
              "phases; at every boundary each flagged individual's stored fitness is recomputed independently. AGraph + "
-             "ExplicitRegression + scipy local optimisation islands/archipelagos: monitor and boundary oracle only; the same for value "
+             "ExplicitRegression + scipy local optimisation islands/archipelagos (a third of them evaluating in two worker processes): "
+             "monitor and boundary oracle only; the same for value "
              "chromosomes whose genes lie close together on a relative scale (around 1e6, around 1e-9, indices above 1e5, booleans)",
         samples=[steps[0]["case"]] + ag["samples"][:2] if steps else ag["samples"][:2],
         correspondence=dict(generational_steps=len(steps), disagreements=len(bad)),
